@@ -37,12 +37,16 @@ type straddle struct {
 	Park     int  `json:"park"`
 	Exec     int  `json:"exec"`
 	NotFound bool `json:"loader_reports_not_found"`
+	Bounded  bool `json:"size_bound,omitempty"` // a (never reached) size bound: replaced and removed nodes are retired, as under any policy
 }
 
 func (s straddle) String() string {
 	nf := ""
 	if s.NotFound {
 		nf = ", loader reports not-found"
+	}
+	if s.Bounded {
+		nf += ", size-bounded cache"
 	}
 	return fmt.Sprintf("%s started while %s is parked in its %s (executor %d%s)", loadKindNames[s.Load], writeKindNames[s.Write], parkNames[s.Park], s.Exec, nf)
 }
@@ -123,6 +127,9 @@ func runStraddle(s straddle) (violation, inconclusive string, skipped bool) {
 				<-relPark
 			}
 		}
+	}
+	if s.Bounded {
+		o.MaximumSize = 1000
 	}
 	if s.Load == lkGetExpired && o.ExpiryCalculator == nil {
 		o.ExpiryCalculator = otter.ExpiryWriting[int, int](time.Minute)
@@ -239,7 +246,7 @@ func runStraddle(s straddle) (violation, inconclusive string, skipped bool) {
 	}()
 	select {
 	case <-loaderDone:
-	case <-time.After(5 * time.Second):
+	case <-time.After(1500 * time.Millisecond):
 		// no loader ran while the writer was parked (the call was served without loading, or its
 		// path needs the bucket lock before it reaches the loader): nothing to judge
 		close(relPark)
